@@ -1,3 +1,7 @@
 import Driver.Util
 import Driver.Ring
 import Driver.Kcp
+import Driver.Sess
+import Driver.Wait
+import Driver.Wire
+import Driver.Sched
